@@ -19,6 +19,14 @@ POOLS = {
     'BOOLEAN': [None, False, True],
     'REAL': [None, 0.0, 1.5],
 }
+# values that are different but have the same Python hash (hash(-1) == hash(-2); hash(n) is n mod 2**61-1; the hash of a
+# float equals that of the integer it represents): a join that compares hashes instead of values links the wrong rows
+COLLIDING = {
+    'int_coll': [None, -1, -2, 0, 2 ** 61 - 1],
+    'uid_coll': [None, 1, 2 ** 61, 2 ** 62 - 1],
+    'real_coll': [None, -1.0, -2.0, 0.0],
+    'str_coll': [None, 'a', 'A', ' a'],
+}
 KEYS = {
     'uid': [('Id', 'UNIQUE_ID')], 'str': [('Name', 'STRING')], 'int': [('N', 'INTEGER')],
     'bool': [('F', 'BOOLEAN')], 'real': [('X', 'REAL')],
@@ -26,6 +34,7 @@ KEYS = {
     'int_uid': [('N', 'INTEGER'), ('Id', 'UNIQUE_ID')],
     'int_int': [('N', 'INTEGER'), ('M', 'INTEGER')],
     'shared': [('Id', 'UNIQUE_ID')],
+    'int_coll': [('N', 'INTEGER')], 'uid_coll': [('Id', 'UNIQUE_ID')], 'real_coll': [('X', 'REAL')], 'str_coll': [('Name', 'STRING')],
 }[SCHEMA]
 COMPOSITE_POOLS = {'UNIQUE_ID': [0, 1, 2], 'STRING': ['', 'a'], 'INTEGER': [0, 1]}
 
@@ -35,6 +44,8 @@ def key_pool():
         return [(1, 1), (1, 2), (2, 1), (2, 2)]
     if SCHEMA == 'shared':
         return [(0,), (1,), (2,)]
+    if SCHEMA in COLLIDING:
+        return [(v,) for v in COLLIDING[SCHEMA]]
     if len(KEYS) == 1:
         return [(v,) for v in POOLS[KEYS[0][1]]]
     return list(itertools.product(*[COMPOSITE_POOLS[t] for _, t in KEYS]))
